@@ -98,6 +98,10 @@ def configs(tier):
     # per-run isolation of genotype(): what a run sees of the gene database depends on its
     # own arguments only, not on the runs before it
     c.append({"kind": "isolation"})
+    # a candidate that hands over a novel variant, refined before / after another candidate:
+    # the model built for it must be the one it gets alone (shared with C04)
+    import c04
+    c += [x for x in c04.configs(tier) if x.get("company")]
     # iteration (hash) order of the variant set in the minor model
     two = [[5060, "A>C"], [5060, "A>G"]]
     for perm in range(4 if tier == "quick" else 11):
@@ -110,6 +114,9 @@ def configs(tier):
 
 
 def run_config(cfg):
+    if cfg.get("company"):
+        import c04
+        return c04.run_config(cfg)
     if cfg["kind"] == "neutral":
         import c19
         return c19.run_neutral(cfg)
@@ -886,6 +893,9 @@ def replay_none(o):
 
 
 def replay(o):
+    if o.get("kind") == "minor":
+        import c04
+        return c04.replay(o)
     if o["kind"] == "neutral":
         import c19
         return c19.replay_neutral(o)
